@@ -477,7 +477,7 @@ var assumptions = []string{
 }
 
 func TestPropHistories(t *testing.T) {
-	kit.Run(t, kit.Spec[Case]{ID: "C08", Name: "histories", Rule: rule, Gen: gen, Check: check, Quick: 2500, Thorough: 25000, Assumptions: assumptions,
+	kit.Run(t, kit.Spec[Case]{ID: "C08", Name: "histories", Rule: rule, Gen: gen, Check: check, Quick: 2000, Thorough: 25000, Assumptions: assumptions,
 		Sample: func(c Case) any {
 			return map[string]any{"universe": fmt.Sprintf("%d specs", len(c.Universe)), "ops": c.Ops}
 		}})
